@@ -18,11 +18,15 @@ func verifElem(tag string) (json.RawMessage, int) {
 
 // Harness_C16_args: Args decodes position by position with exact length.
 func Harness_C16_args() {
-	n := nondetChoice("targets", 4) // number of slots
-	m := nondetChoice("elements", 4)
-	var ival [3]int
-	var sval [3]string
-	var rval [3]json.RawMessage
+	maxn := 4
+	if thorough() {
+		maxn = 5
+	}
+	n := nondetChoice("targets", maxn) // number of slots
+	m := nondetChoice("elements", maxn)
+	var ival [4]int
+	var sval [4]string
+	var rval [4]json.RawMessage
 	kinds := make([]int, n) // 0 nil slot, 1 *int, 2 *string, 3 *json.RawMessage
 	args := make(Args, n)
 	for i := 0; i < n; i++ {
